@@ -93,6 +93,8 @@ def oracle_c02(series, nii, order):
         return fails          # the data type of rescaled data is nibabel's (binary64); the values were compared exactly
     # dtype rule
     exp_dtype = np.int16 if (series.get('signed') or series.get('bits_stored', 16) < 16) else np.uint16
+    if series.get('bits_allocated') == 8:
+        exp_dtype = np.uint8          # the unsigned-to-signed choice is about 16-bit data only
     if series.get('bits_mix'):
         exp_dtype = data.dtype if data.dtype in (np.int16, np.uint16) else None   # decided by the first sorted file
     if data.dtype != exp_dtype:
